@@ -1,17 +1,21 @@
 package loader
 
-// BOUNDED check (C13 / C10, configuration side) of Loader.build, which the generator cannot
+// BOUNDED check (C13 / C10 / C12, configuration side) of Loader.build, which the generator cannot
 // verify (maps and slices of structs, factories behind interfaces). Exhaustive over: every
 // ordered selection of 1..3 secret configurations from {A, B, C}; two users, each assigned to
 // any subset of {A, B, C} and carrying one of four authenticator settings (none / type with a
-// working factory / type whose factory fails / type with no factory). 15 x 32 x 32 = 15360
+// working factory / type whose factory fails / type with no factory) and one of three accounter
+// settings (none / type with a factory / type with no factory). 15 x 96 x 96 = 138240
 // configurations, built with the real build() and the real config.Provider, fakes elsewhere.
 // Oracle written from the property text:
 //   * one provider per secret configuration that has at least one user, in configuration order;
 //   * a provider's user set holds exactly the users whose scopes name it — minus users whose
 //     authenticator factory failed — and the user copy handed to the authorizer factory is localized to exactly that scope;
 //   * a user with a working factory gets that factory's handler for that user name; a user
-//     without an authenticator (or with an unknown type) gets the default-deny authenticator.
+//     without an authenticator (or with an unknown type) gets the default-deny authenticator;
+//   * a user with an accounter whose type has a factory gets that factory's handler, built from
+//     that user's own options; a user without an accounter (or with an unknown type) gets the
+//     default accounter that answers ERROR — whatever the other users of the scope have (C12).
 
 import (
 	"context"
@@ -80,6 +84,12 @@ func (tqvGoodAuth) New(username string, options map[string]string) (tq.Handler, 
 	return &tqvNop{tag: "auth:" + username}, nil
 }
 
+type tqvAcct struct{}
+
+func (tqvAcct) New(options map[string]string) tq.Handler {
+	return &tqvNop{tag: "acct:" + options["owner"]}
+}
+
 type tqvBadAuth struct{}
 
 func (tqvBadAuth) New(username string, options map[string]string) (tq.Handler, error) {
@@ -94,7 +104,7 @@ func TestTqvWitness(t *testing.T) {
 		authorizerProvider: tqvAuthorizerFactory{},
 		providerTypes:      map[config.ProviderType]secretProviderFactory{config.PREFIX: tqvSecretProviderFactory{}},
 		authenticatorTypes: map[config.AuthenticatorType]authenticatorFactory{good: tqvGoodAuth{}, bad: tqvBadAuth{}},
-		accounterTypes:     map[config.AccounterType]accounterFactory{},
+		accounterTypes:     map[config.AccounterType]accounterFactory{config.AccounterType(1): tqvAcct{}},
 		handlerTypes:       map[config.HandlerType]handlerFactory{config.START: tqvHandlerFactory{}},
 	}
 	scopes := []string{"A", "B", "C"}
@@ -118,7 +128,7 @@ func TestTqvWitness(t *testing.T) {
 		}
 	}
 	n := 0
-	mkUser := func(name string, mask, kind int) config.User {
+	mkUser := func(name string, mask, kind, acct int) config.User {
 		u := config.User{Name: name}
 		for i, s := range scopes {
 			if mask&(1<<i) != 0 {
@@ -133,6 +143,12 @@ func TestTqvWitness(t *testing.T) {
 		case 3:
 			u.Authenticator = &config.Authenticator{Type: unknown}
 		}
+		switch acct {
+		case 1:
+			u.Accounter = &config.Accounter{Type: config.AccounterType(1), Options: map[string]string{"owner": name}}
+		case 2:
+			u.Accounter = &config.Accounter{Type: config.AccounterType(77)}
+		}
 		return u
 	}
 	has := func(u config.User, s string) bool {
@@ -144,14 +160,17 @@ func TestTqvWitness(t *testing.T) {
 		return false
 	}
 	defaultAuth := reflect.TypeOf(config.NewAAA().Authenticate)
+	defaultAcct := reflect.TypeOf(config.NewAAA().Accounting)
 	for _, order := range orders {
 		for m1 := 0; m1 < 8; m1++ {
 			for k1 := 0; k1 < 4; k1++ {
 				for m2 := 0; m2 < 8; m2++ {
-					for k2 := 0; k2 < 4; k2++ {
+					for k2x := 0; k2x < 36; k2x++ {
+						k2, a1, a2 := k2x%4, (k2x/4)%3, k2x/12
 						n++
-						users := []config.User{mkUser("u1", m1, k1), mkUser("u2", m2, k2)}
+						users := []config.User{mkUser("u1", m1, k1, a1), mkUser("u2", m2, k2, a2)}
 						kinds := map[string]int{"u1": k1, "u2": k2}
+						accts := map[string]int{"u1": a1, "u2": a2}
 						sc := config.ServerConfig{Users: users}
 						for _, s := range order {
 							sc.Secrets = append(sc.Secrets, config.SecretConfig{Name: s, Type: config.PREFIX, Handler: config.Handler{Type: config.START}})
@@ -194,6 +213,13 @@ func TestTqvWitness(t *testing.T) {
 								if h, ok := aaa.Authorizer.(*tqvNop); !ok || h.tag != "authz:"+u.Name || len(h.user.Scopes) != 1 || h.user.Scopes[0] != p.name {
 									note("scope %s: user %s: the authorizer was built from a user copy %+v, want one localized to exactly [%s]", p.name, u.Name, aaa.Authorizer, p.name)
 								}
+								if accts[u.Name] == 1 {
+									if h, ok := aaa.Accounting.(*tqvNop); !ok || h.tag != "acct:"+u.Name {
+										note("scope %s: user %s has accounter %T %+v, want the factory's handler built from that user's options", p.name, u.Name, aaa.Accounting, aaa.Accounting)
+									}
+								} else if reflect.TypeOf(aaa.Accounting) != defaultAcct {
+									note("scope %s: user %s (accounter setting %d; the other user has %v) has accounter %T, want the default accounter that answers ERROR", p.name, u.Name, accts[u.Name], accts, aaa.Accounting)
+								}
 								switch kinds[u.Name] {
 								case 1:
 									if h, ok := aaa.Authenticate.(*tqvNop); !ok || h.tag != "auth:"+u.Name {
@@ -213,8 +239,8 @@ func TestTqvWitness(t *testing.T) {
 	}
 	out := map[string]interface{}{
 		"obligation":     "cmds/server/loader.Loader.build/bounded.scoping",
-		"scenario":       "exhaustive: ordered selections of 1..3 scopes x 2 users x scope subsets x 4 authenticator settings, real build() and config.Provider",
-		"configurations": n, "mismatches": bads, "violated": len(bads) > 0 || n != 15360,
+		"scenario":       "exhaustive: ordered selections of 1..3 scopes x 2 users x scope subsets x 4 authenticator settings x 3 accounter settings, real build() and config.Provider",
+		"configurations": n, "mismatches": bads, "violated": len(bads) > 0 || n != 138240,
 	}
 	b, _ := json.Marshal(out)
 	fmt.Println("TQV-WITNESS " + string(b))
